@@ -37,6 +37,7 @@ struct fr_task {
         int done;                       /* futex word */
         int implicit_index;
         int single_count;
+        int loop_count;
 };
 
 struct fr_team {
@@ -46,6 +47,9 @@ struct fr_team {
         struct fr_task* tasks;          /* all explicit tasks of the team */
         int outstanding;                /* futex word: explicit tasks not finished */
         struct fr_team* outer;
+        int lset;                       /* dynamic / guided / runtime work-sharing loop (not used by kalign today) */
+        int loop_id;
+        long lnext, lend, lincr, lchunk;
 };
 
 static int g_icv = 1;
@@ -131,6 +135,8 @@ static void make_thread(pthread_t* th, void* (*fn)(void*), void* arg, int detach
         pthread_attr_destroy(&at);
 }
 
+static __thread struct { int set; long next, end, incr, chunk; } g_pending_loop;
+
 void GOMP_parallel(void (*fn)(void*), void* data, unsigned num_threads, unsigned flags)
 {
         struct fr_team team;
@@ -152,6 +158,15 @@ void GOMP_parallel(void (*fn)(void*), void* data, unsigned num_threads, unsigned
         memset(&team, 0, sizeof team);
         team.N = N;
         team.outer = saved_team;
+        if(g_pending_loop.set){
+                team.lset = 1;
+                team.lnext = g_pending_loop.next;
+                team.lend = g_pending_loop.end;
+                team.lincr = g_pending_loop.incr;
+                team.lchunk = g_pending_loop.chunk;
+                team.loop_id = 1 << 20;
+                g_pending_loop.set = 0;
+        }
         memset(&it0, 0, sizeof it0);
         it0.parent = saved_task;
         it0.team = &team;
@@ -324,6 +339,158 @@ void GOMP_taskwait(void)
 }
 
 void GOMP_taskyield(void) {}
+
+/* taskloop (not used by kalign today; a realistic edit might introduce it): the iteration space is cut into chunks, one deferred
+   task per chunk, followed - unless nogroup is given - by a wait for the tasks created (implemented as a taskwait: waits for every
+   child of the encountering task, which is at least what the implicit taskgroup waits for here) */
+#define VG_TASK_FLAG_UP (1 << 8)
+#define VG_TASK_FLAG_GRAINSIZE (1 << 9)
+#define VG_TASK_FLAG_IF (1 << 10)
+#define VG_TASK_FLAG_NOGROUP (1 << 11)
+void GOMP_taskloop(void (*fn)(void*), void* data, void (*cpyfn)(void*, void*), long arg_size, long arg_align, unsigned flags,
+                   unsigned long num_tasks, int priority, long start, long end, long step)
+{
+        unsigned long n, ntasks, k, each, extra;
+        long s;
+        char* raw;
+        char* buf;
+        (void)priority;
+        if(flags & VG_TASK_FLAG_UP){
+                if(end <= start){
+                        return;
+                }
+                n = (unsigned long)((end - start + step - 1) / step);
+        }else{
+                if(end >= start){
+                        return;
+                }
+                n = (unsigned long)((start - end - step - 1) / -step);
+        }
+        if(arg_align < 1){
+                arg_align = 1;
+        }
+        if(flags & VG_TASK_FLAG_GRAINSIZE){
+                ntasks = num_tasks ? n / num_tasks : n;
+        }else{
+                ntasks = num_tasks ? num_tasks : (unsigned long)omp_get_num_threads();
+        }
+        if(ntasks < 1){
+                ntasks = 1;
+        }
+        if(ntasks > n){
+                ntasks = n;
+        }
+        each = n / ntasks;
+        extra = n % ntasks;
+        raw = malloc((size_t)arg_size + (size_t)arg_align + 16);
+        buf = (char*)(((uintptr_t)raw + (uintptr_t)arg_align - 1) / (uintptr_t)arg_align * (uintptr_t)arg_align);
+        s = start;
+        for(k = 0; k < ntasks; k++){
+                long cnt = (long)(each + (k < extra ? 1 : 0));
+                long e = s + cnt * step;
+                if(cpyfn){
+                        cpyfn(buf, data);
+                }else if(arg_size){
+                        memcpy(buf, data, (size_t)arg_size);
+                }
+                ((long*)buf)[0] = s;
+                ((long*)buf)[1] = e;
+                GOMP_task(fn, buf, NULL, arg_size, arg_align, true, 0, NULL, 0, NULL);
+                s = e;
+        }
+        free(raw);
+        if(!(flags & VG_TASK_FLAG_NOGROUP)){
+                GOMP_taskwait();
+        }
+}
+
+
+static bool fr_loop_next(long* istart, long* iend)
+{
+        struct fr_team* team = cur_team;
+        long n, e;
+        bool ok = false;
+        if(!team || !team->lset){
+                return false;
+        }
+        lock(&team->lock);
+        n = team->lnext;
+        if(!(team->lincr > 0 ? n >= team->lend : n <= team->lend)){
+                e = n + team->lchunk * team->lincr;
+                if(team->lincr > 0 ? e > team->lend : e < team->lend){
+                        e = team->lend;
+                }
+                team->lnext = e;
+                *istart = n;
+                *iend = e;
+                ok = true;
+        }
+        unlock(&team->lock);
+        return ok;
+}
+
+static void fr_parallel_loop(void (*fn)(void*), void* data, unsigned num_threads, long start, long end, long incr, long chunk, unsigned flags)
+{
+        g_pending_loop.set = 1;
+        g_pending_loop.next = start;
+        g_pending_loop.end = end;
+        g_pending_loop.incr = incr ? incr : 1;
+        g_pending_loop.chunk = chunk > 0 ? chunk : 1;
+        GOMP_parallel(fn, data, num_threads, flags);
+}
+
+void GOMP_parallel_loop_dynamic(void (*fn)(void*), void* d, unsigned nt, long s, long e, long i, long c, unsigned f) { fr_parallel_loop(fn, d, nt, s, e, i, c, f); }
+void GOMP_parallel_loop_nonmonotonic_dynamic(void (*fn)(void*), void* d, unsigned nt, long s, long e, long i, long c, unsigned f) { fr_parallel_loop(fn, d, nt, s, e, i, c, f); }
+void GOMP_parallel_loop_guided(void (*fn)(void*), void* d, unsigned nt, long s, long e, long i, long c, unsigned f) { fr_parallel_loop(fn, d, nt, s, e, i, c, f); }
+void GOMP_parallel_loop_nonmonotonic_guided(void (*fn)(void*), void* d, unsigned nt, long s, long e, long i, long c, unsigned f) { fr_parallel_loop(fn, d, nt, s, e, i, c, f); }
+void GOMP_parallel_loop_runtime(void (*fn)(void*), void* d, unsigned nt, long s, long e, long i, unsigned f) { fr_parallel_loop(fn, d, nt, s, e, i, 1, f); }
+void GOMP_parallel_loop_nonmonotonic_runtime(void (*fn)(void*), void* d, unsigned nt, long s, long e, long i, unsigned f) { fr_parallel_loop(fn, d, nt, s, e, i, 1, f); }
+void GOMP_parallel_loop_maybe_nonmonotonic_runtime(void (*fn)(void*), void* d, unsigned nt, long s, long e, long i, unsigned f) { fr_parallel_loop(fn, d, nt, s, e, i, 1, f); }
+bool GOMP_loop_dynamic_next(long* s, long* e) { return fr_loop_next(s, e); }
+bool GOMP_loop_nonmonotonic_dynamic_next(long* s, long* e) { return fr_loop_next(s, e); }
+bool GOMP_loop_guided_next(long* s, long* e) { return fr_loop_next(s, e); }
+bool GOMP_loop_nonmonotonic_guided_next(long* s, long* e) { return fr_loop_next(s, e); }
+bool GOMP_loop_runtime_next(long* s, long* e) { return fr_loop_next(s, e); }
+bool GOMP_loop_nonmonotonic_runtime_next(long* s, long* e) { return fr_loop_next(s, e); }
+bool GOMP_loop_maybe_nonmonotonic_runtime_next(long* s, long* e) { return fr_loop_next(s, e); }
+void GOMP_loop_end_nowait(void) {}
+
+static bool fr_loop_start(long start, long end, long incr, long chunk, long* istart, long* iend)
+{
+        struct fr_team* team = cur_team;
+        struct fr_task* it;
+        if(!team){
+                if(incr > 0 ? start >= end : start <= end){
+                        return false;
+                }
+                *istart = start;
+                *iend = end;
+                return true;
+        }
+        for(it = cur_task; it && it->implicit_index < 0; it = it->parent){
+        }
+        if(it){
+                it->loop_count++;
+                lock(&team->lock);
+                if(it->loop_count > team->loop_id){
+                        team->loop_id = it->loop_count;
+                        team->lset = 1;
+                        team->lnext = start;
+                        team->lend = end;
+                        team->lincr = incr ? incr : 1;
+                        team->lchunk = chunk > 0 ? chunk : 1;
+                }
+                unlock(&team->lock);
+        }
+        return fr_loop_next(istart, iend);
+}
+bool GOMP_loop_dynamic_start(long s, long e, long i, long c, long* is, long* ie) { return fr_loop_start(s, e, i, c, is, ie); }
+bool GOMP_loop_nonmonotonic_dynamic_start(long s, long e, long i, long c, long* is, long* ie) { return fr_loop_start(s, e, i, c, is, ie); }
+bool GOMP_loop_guided_start(long s, long e, long i, long c, long* is, long* ie) { return fr_loop_start(s, e, i, c, is, ie); }
+bool GOMP_loop_nonmonotonic_guided_start(long s, long e, long i, long c, long* is, long* ie) { return fr_loop_start(s, e, i, c, is, ie); }
+bool GOMP_loop_runtime_start(long s, long e, long i, long* is, long* ie) { return fr_loop_start(s, e, i, 1, is, ie); }
+bool GOMP_loop_nonmonotonic_runtime_start(long s, long e, long i, long* is, long* ie) { return fr_loop_start(s, e, i, 1, is, ie); }
+bool GOMP_loop_maybe_nonmonotonic_runtime_start(long s, long e, long i, long* is, long* ie) { return fr_loop_start(s, e, i, 1, is, ie); }
 
 /* constructs kalign does not use today; provided so that an edited tree still links.
    critical/atomic are real mutual exclusion AND, as in OpenMP, synchronisation TSan may see. */
